@@ -6,10 +6,10 @@ package main
 // the protoreflect interface on view(x) (the struct fields themselves, so getters and fields agree by construction).
 
 import (
-	"regexp"
 	"fmt"
 	"go/ast"
 	"go/types"
+	"regexp"
 	"strings"
 
 	"golang.org/x/tools/go/packages"
@@ -400,11 +400,12 @@ func (e *reflEngine) presentTerm(st *State, f reflField, snap map[string]Val) st
 var freshRef = regexp.MustCompile(`^\(- [0-9]+\)$`)
 
 type reflOpts struct {
-	contract bool // C08: per-operation contracts
-	nilrecv  bool // C09: nil receiver variants of the read operations
-	frame    bool // C07/C11: read-only operations do not store
-	unknown  bool // C14: GetUnknown/SetUnknown
-	get      bool // C09: the Get contract (unpopulated composite fields yield the invalid read-only views)
+	contract bool            // C08: per-operation contracts
+	nilrecv  bool            // C09: nil receiver variants of the read operations
+	frame    bool            // C07/C11: read-only operations do not store
+	unknown  bool            // C14: GetUnknown/SetUnknown
+	get      bool            // C09: the Get contract (unpopulated composite fields yield the invalid read-only views)
+	only     map[string]bool // restrict the contract run to these methods (nil: all)
 }
 
 var readOnlyMethods = map[string]bool{"Has": true, "Get": true, "Range": true, "WhichOneof": true, "GetUnknown": true, "IsValid": true, "NewField": true, "Descriptor": true, "Type": true, "New": true, "Interface": true}
@@ -414,6 +415,9 @@ func reflUnits(prog *Program, ms *MsgSchema, o reflOpts) []*Unit {
 	names := fullNames(ms.Pkg)
 	methods := []string{"Has", "Get", "Set", "Clear", "Mutable", "NewField", "WhichOneof", "Range", "GetUnknown", "SetUnknown", "IsValid"}
 	for _, m := range methods {
+		if o.only != nil && !o.only[m] {
+			continue
+		}
 		if o.unknown && !o.contract && m != "GetUnknown" && m != "SetUnknown" {
 			continue
 		}
